@@ -1,5 +1,6 @@
 use crate::{
-    AnyStoredVec, ChangeCursor, ReadWriteBaseVec, Result, VecIndex, VecValue, WritableVec,
+    AnyStoredVec, AnyVec, ChangeCursor, Error, ReadWriteBaseVec, Result, VecIndex, VecValue,
+    WritableVec,
 };
 
 use super::{super::CompressionStrategy, ReadWriteCompressedVec};
@@ -26,6 +27,14 @@ where
         let mut c = ChangeCursor::new(bytes);
         let change =
             ReadWriteBaseVec::<I, T>::parse_change_data(&mut c, Self::SIZE_OF_T, |b| S::read(b))?;
+
+        // A record can only undo a state at least as long as its untouched prefix.
+        if change.truncated_start > self.len() {
+            return Err(Error::WrongLength {
+                received: change.truncated_start,
+                expected: self.len(),
+            });
+        }
 
         // No overlay map: truncated values ride in `pushed` and `stored_len`
         // is clamped to where disk still agrees with the rolled-back state.
